@@ -143,22 +143,24 @@ type TmplRow struct {
 }
 
 type Case struct {
-	ID     int       `json:"id"`
-	Class  string    `json:"class"`
-	Query  string    `json:"query"`
-	From   int64     `json:"from"`
-	To     int64     `json:"to"`
-	Limit  int64     `json:"limit"`
-	In     [][]Entry `json:"in"`
-	NoFix  bool      `json:"nofix,omitempty"` // true: ctx is used as given (not aligned like FixPeriodPlanner does)
-	Mode   string    `json:"mode,omitempty"`  // "" = chain | "fp" = fingerprint structure case
-	Chain  []Stage   `json:"chain"`
-	Split  int       `json:"split"` // number of pipeline stages left to ClickHouse
-	NPipe  int       `json:"npipe"`
-	BP     int       `json:"bp"` // GetBreakpoint(script)
-	Out    Out       `json:"out"`
-	Stages [][]Entry `json:"stage_out,omitempty"` // flattened output of every stage (debug / localisation)
-	Tab    Tables    `json:"tab"`
+	ID        int       `json:"id"`
+	Class     string    `json:"class"`
+	Query     string    `json:"query"`
+	From      int64     `json:"from"`
+	To        int64     `json:"to"`
+	Limit     int64     `json:"limit"`
+	In        [][]Entry `json:"in"`
+	Range     string    `json:"range,omitempty"`      // the range of a generated metric query as written ([1500ms]) ...
+	RangeKind string    `json:"range_kind,omitempty"` // ... and how it relates to whole seconds / milliseconds
+	NoFix     bool      `json:"nofix,omitempty"`      // true: ctx is used as given (not aligned like FixPeriodPlanner does)
+	Mode      string    `json:"mode,omitempty"`       // "" = chain | "fp" = fingerprint structure case
+	Chain     []Stage   `json:"chain"`
+	Split     int       `json:"split"` // number of pipeline stages left to ClickHouse
+	NPipe     int       `json:"npipe"`
+	BP        int       `json:"bp"` // GetBreakpoint(script)
+	Out       Out       `json:"out"`
+	Stages    [][]Entry `json:"stage_out,omitempty"` // flattened output of every stage (debug / localisation)
+	Tab       Tables    `json:"tab"`
 	// mode "fp"
 	FPLabels map[string]string `json:"fp_labels,omitempty"`
 	FPPairs  []PFH             `json:"fp_pairs,omitempty"`
@@ -1324,6 +1326,34 @@ func genStage(r *rand.Rand, gp *genPlan) string {
 	}
 }
 
+// a range as it is written and its length in nanoseconds
+type rangeLit struct {
+	text string
+	ns   int64
+}
+
+var wholeRanges = []rangeLit{{"1s", 1e9}, {"2s", 2e9}, {"4s", 4e9}, {"5s", 5e9}, {"10s", 10e9}, {"60s", 60e9}, {"1m", 60e9}, {"2000ms", 2e9}, {"1000000us", 1e9}}
+var fracRanges = []rangeLit{{"1500ms", 1500e6}, {"500ms", 500e6}, {"250ms", 250e6}, {"999ms", 999e6}, {"2500ms", 2500e6}, {"1001ms", 1001e6}, {"100ms", 100e6},
+	{"1999ms", 1999e6}, {"7ms", 7e6}, {"1ms", 1e6}, {"1500us", 1500e3}, {"999us", 999e3}, {"750us", 750e3}, {"1000001us", 1000001e3}, {"2500us", 2500e3}, {"1us", 1e3},
+	{"1500ns", 1500}, {"999ns", 999}, {"1500000001ns", 1500000001}, {"7ns", 7}}
+var exactRanges = []rangeLit{{"1s", 1e9}, {"2s", 2e9}, {"4s", 4e9}, {"8s", 8e9}, {"500ms", 500e6}, {"250ms", 250e6}, {"125ms", 125e6}, {"500000us", 500e6}}
+
+// rangeKind: how the range relates to whole seconds / milliseconds (evidence histogram; class suffix)
+func rangeKind(ns int64) string {
+	switch {
+	case ns%1e9 == 0:
+		return "whole-s"
+	case ns%1e6 == 0 && ns > 1e9:
+		return "ms>1s"
+	case ns%1e6 == 0:
+		return "ms<1s"
+	case ns > 1e6:
+		return "sub-ms-part"
+	default:
+		return "<1ms"
+	}
+}
+
 var rangeFns = []string{"rate", "count_over_time", "bytes_rate", "bytes_over_time"}
 var unwrapFns = []string{"rate", "sum_over_time", "avg_over_time", "max_over_time", "min_over_time", "first_over_time", "last_over_time"}
 var aggFns = []string{"sum", "min", "max", "avg", "count"}
@@ -1489,13 +1519,23 @@ func genCase(r *rand.Rand, id int, pl *pools) Case {
 	for i := 0; i < ns; i++ {
 		pipe += genStage(r, &gp)
 	}
-	// durations: whole seconds; powers of two where sums of quotients must stay exact
-	durS := []int64{1, 2, 4, 5, 10, 60}[r.Intn(6)]
+	// ranges: a number and a unit, as the grammar reads them.  Half of the metric queries get a range that is NOT a whole number
+	// of seconds (ms / us / ns units, below and above one second, with and without a sub-millisecond part): the in-process rates
+	// divide by the range, and a divisor truncated to whole seconds / milliseconds shows only there (seed C09-f; the defect of
+	// round 6).  Powers of two (in seconds) where sums of quotients must stay exact
+	rg := wholeRanges[r.Intn(len(wholeRanges))]
+	fracRange := gp.metric && r.Intn(2) == 0
+	if fracRange {
+		rg = fracRanges[r.Intn(len(fracRanges))]
+	}
 	exactOnly := false
 	c.Class = "log"
 	uw := ""
 	if gp.metric {
 		fn := pick(r, rangeFns)
+		if fracRange && r.Intn(2) == 0 {
+			fn = pick(r, []string{"rate", "bytes_rate"})
+		}
 		inner := pipe
 		if !gp.unwrap && r.Intn(10) == 0 {
 			fn = "absent_over_time"
@@ -1506,6 +1546,9 @@ func genCase(r *rand.Rand, id int, pl *pools) Case {
 		}
 		if gp.unwrap {
 			fn = pick(r, unwrapFns)
+			if fracRange && r.Intn(2) == 0 {
+				fn = "rate"
+			}
 			uw = pick(r, []string{"n", "n", "dur", "dur", "_entry", "level"})
 			inner += " | unwrap " + uw
 			c.Class = "unwrap"
@@ -1554,7 +1597,10 @@ func genCase(r *rand.Rand, id int, pl *pools) Case {
 			exactOnly = aggFn == "sum" || aggFn == "avg"
 		}
 		if exactOnly {
-			durS = []int64{1, 2, 4, 8}[r.Intn(4)]
+			rg = exactRanges[r.Intn(4)]
+			if fracRange {
+				rg = exactRanges[4+r.Intn(len(exactRanges)-4)]
+			}
 		}
 		cmpI := ""
 		if r.Intn(3) == 0 {
@@ -1562,7 +1608,7 @@ func genCase(r *rand.Rand, id int, pl *pools) Case {
 			cmpI = " " + pick(r, []string{">", ">=", "<", "<=", "==", "!="}) + " \x01"
 			c.ThI = pick(r, []string{"1", "1", "2", "2", "0.5", "3"})
 		}
-		q := fn + "(" + sel + inner + " [" + strconv.FormatInt(durS, 10) + "s])" + bwInner + cmpI
+		q := fn + "(" + sel + inner + " [" + rg.text + "])" + bwInner + cmpI
 		if agg {
 			if r.Intn(3) == 0 {
 				cmpO = " " + pick(r, []string{">", ">=", "<", "<=", "==", "!="}) + " \x02"
@@ -1579,7 +1625,10 @@ func genCase(r *rand.Rand, id int, pl *pools) Case {
 		c.Class += "+anchored"
 	}
 	// context, aligned the way FixPeriodPlanner leaves it for matrix requests
-	dur := durS * 1e9
+	dur := rg.ns
+	if gp.metric {
+		c.Range, c.RangeKind = rg.text, rangeKind(rg.ns)
+	}
 	base := int64(1700000000) * 1e9
 	base -= base % dur
 	nb := int64(1 + r.Intn(6))
